@@ -135,7 +135,9 @@ func checkKindRow(rr *RuleRun, c *Ctx, fd *ast.FuncDecl, row kindRow) {
 		rr.Violation(key, fd.Pos(), fmt.Sprintf("no branch for kind(s) %s (tested: %s) — %s", strings.Join(miss, ","), res.list(), row.Why))
 		return
 	}
-	if row.Residual != "" && res.Residual != row.Residual {
+	// a residual requirement means "not silent": a panic and an error return both reject an unhandled kind
+	// (which of the two a function uses is a matter of how its switches are nested, not of behaviour)
+	if row.Residual != "" && res.Residual == "none" {
 		rr.Violation(key, fd.Pos(), fmt.Sprintf("residual case is %q, want %q: an unhandled kind must not fall through silently", res.Residual, row.Residual))
 		return
 	}
